@@ -9,6 +9,9 @@
 //!   cov / corr   for mp in 0..=maxmp: vcov / vcorr_pearson of two series                      (1e-9 / 1e-7)
 //!   mask  for mp in 0..=maxmp: n_vsum_filter.0 n_vsum_filter.1 n_sum_filter vmean_filter(mp) (1e-9)
 //!   boolv vany vall count_valid count_none vfirst vlast;  boolp any all first last count_value(true)
+//!   number (audit) Number::{min_with,max_with,floor,ceil,abs,n_add,n_prod,kh_sum} on f64 / f32 / i32 / i64 / u64 / usize (exact)
+//!   casts  (audit) Number::{to,fromas} between f64 / f32 / i32 / i64 / usize                       (exact)
+//!   fold2 / vapply (audit) IterBasic::{vfold2,vapply} with order-sensitive callbacks               (exact)
 //! Generator / rendering code never sees the tevec prelude (it shadows Iterator::{sum,min,max,..});
 //! all calls into tevec live in `mod imp`.
 use std::collections::VecDeque;
@@ -265,6 +268,100 @@ mod imp {
             AggBasic::last(mk()).cell(),
             AggBasic::count_value(mk(), true).cell(),
         ]
+    }
+
+    // ---- audit additions: tea-dtype/src/number.rs helpers, iter_traits.rs vfold2 / vapply -----------------
+    impl ToCell for u64 {
+        fn cell(&self) -> Cell { Cell::Int(*self as i128) }
+    }
+    /// cells: min_with max_with floor ceil abs | n_add(a,b,&mut 3) -> value n | n_prod likewise |
+    ///        fold n_add from zero over xs -> value n | fold n_prod from one -> value n | Kahan fold -> sum compensation
+    pub fn number<X: Number + ToCell>(zero: X, one: X, a: X, b: X, xs: &[X]) -> Vec<Cell> {
+        let mut c = vec![
+            <X as Number>::min_with(a, b).cell(),
+            <X as Number>::max_with(a, b).cell(),
+            <X as Number>::floor(a).cell(),
+            <X as Number>::ceil(a).cell(),
+            <X as Number>::abs(a).cell(),
+        ];
+        let mut n = 3usize;
+        let r = <X as Number>::n_add(a, b, &mut n);
+        c.push(r.cell());
+        c.push(n.cell());
+        let mut n = 3usize;
+        let r = <X as Number>::n_prod(a, b, &mut n);
+        c.push(r.cell());
+        c.push(n.cell());
+        let (mut n, mut acc) = (0usize, zero);
+        for v in xs { acc = <X as Number>::n_add(acc, *v, &mut n); }
+        c.push(acc.cell());
+        c.push(n.cell());
+        let (mut n, mut acc) = (0usize, one);
+        for v in xs { acc = <X as Number>::n_prod(acc, *v, &mut n); }
+        c.push(acc.cell());
+        c.push(n.cell());
+        let (mut comp, mut acc) = (zero, zero);
+        for v in xs { acc = <X as Number>::kh_sum(acc, *v, &mut comp); }
+        c.push(acc.cell());
+        c.push(comp.cell());
+        c
+    }
+    /// the type's own range constants (Number::min_ / max_) as they are: compared with literal cells
+    pub fn number_range<X: Number + ToCell>() -> Vec<Cell> {
+        vec![X::min_().cell(), X::max_().cell()]
+    }
+
+    /// sign bit of the extreme (1 / 0 / null): tells +0 from -0, which value cells cannot
+    pub fn zero_signs(xs: &[f64]) -> Vec<Cell> {
+        use tevec::prelude::TIter;
+        let sg = |o: Option<f64>| match o { Some(m) => Cell::Int(m.is_sign_negative() as i128), None => Cell::Null };
+        vec![sg(xs.titer().vmin()), sg(xs.titer().vmax())]
+    }
+
+    /// Number::to / Number::fromas (layout in Run/RunC11.v num_casts)
+    pub fn casts(x: f64, k: i64) -> Vec<Cell> {
+        let k32: i32 = <i64 as Number>::to::<i32>(k);
+        vec![
+            <f64 as Number>::to::<i32>(x).cell(),
+            <f64 as Number>::to::<i64>(x).cell(),
+            <f64 as Number>::to::<usize>(x).cell(),
+            <f64 as Number>::to::<f64>(x).cell(),
+            <f64 as Number>::to::<f32>(x).cell(),
+            <i32 as Number>::fromas(x).cell(),
+            <i64 as Number>::fromas(x).cell(),
+            <i64 as Number>::to::<f64>(k).cell(),
+            k32.cell(),
+            <i64 as Number>::to::<usize>(k).cell(),
+            <f64 as Number>::fromas(k).cell(),
+            <f32 as Number>::fromas(k).cell(),
+            <i32 as Number>::to::<i64>(k32).cell(),
+            <i32 as Number>::to::<f64>(k32).cell(),
+            <f64 as Number>::fromas(k32).cell(),
+        ]
+    }
+
+    /// IterBasic::vfold2 with acc -> (count + 1, 3 acc + a - 2 b)
+    pub fn fold2<T, I, T2, I2>(mk: impl Fn() -> I, mk2: impl Fn() -> I2) -> Vec<Cell>
+    where
+        I: IntoIterator<Item = T>,
+        I2: IntoIterator<Item = T2>,
+        T: IsNone<Inner = f64>,
+        T2: IsNone<Inner = f64>,
+    {
+        use tevec::prelude::IterBasic;
+        let (n, v) = mk().vfold2(mk2(), (0usize, 0.0f64), |acc, a: T, b: T2| (acc.0 + 1, 3.0 * acc.1 + a.unwrap() - 2.0 * b.unwrap()));
+        vec![Cell::Int(n as i128), Cell::F(v)]
+    }
+    /// IterBasic::vapply with captured state (calls, running sum, last value)
+    pub fn vapply<T, I>(mk: impl Fn() -> I) -> Vec<Cell>
+    where
+        I: IntoIterator<Item = T>,
+        T: IsNone<Inner = f64>,
+    {
+        use tevec::prelude::IterBasic;
+        let (mut calls, mut sum, mut last) = (0usize, 0.0f64, f64::NAN);
+        mk().vapply(|v: f64| { calls += 1; sum += v; last = v; });
+        vec![Cell::Int(calls as i128), Cell::F(sum), Cell::F(last)]
     }
 }
 
@@ -750,6 +847,200 @@ fn bools(em: &mut Emitter, xs: &[Option<bool>]) {
     }
 }
 
+/// audit additions: the Number helpers of tea-dtype/src/number.rs, Number::to / fromas, IterBasic::vfold2 / vapply
+fn audit_cases(em: &mut Emitter, rng: &mut Rng, thorough: bool) {
+    use tevec::prelude::TIter;
+    const NUM_LAYOUT: &str = "cells: min_with(a,b) max_with(a,b) floor(a) ceil(a) abs(a); n_add(a,b,n=3) -> value n; n_prod(a,b,n=3) -> value n; \
+fold n_add from 0 over xs -> value n; fold n_prod from 1 over xs -> value n; Kahan fold over xs -> sum compensation";
+    let neg_nan = f64::from_bits(f64::NAN.to_bits() | (1u64 << 63));
+    // ---- f64: every ordered pair of special values, and series on which the compensation matters ----------
+    let specials: [f64; 18] = [f64::NAN, neg_nan, f64::INFINITY, f64::NEG_INFINITY, 0.0, -0.0, 1.5, -1.5, 2.0, 0.75, -0.25,
+        4503599627370497.0, 2500000000000000.5, -2500000000000000.5, 1e300, -1e300, 5e-324, f64::MAX];
+    let series_f: Vec<Vec<f64>> = vec![
+        vec![], vec![1.0, 1e-16, 1e-16, 1e-16, 1e-16], vec![1e16, 1.0, -1e16], vec![0.1; 10], vec![1.0, f64::NAN, 2.0],
+        vec![f64::NAN], vec![1e308, 1e308, -1e308], vec![3.0, 1e-17, -3.0, 1e-17], vec![0.5, 0.25, 4.0, -2.0],
+    ];
+    let mut kf = 0usize;
+    for a in specials.iter() {
+        for b in specials.iter() {
+            let xs = &series_f[kf % series_f.len()];
+            kf += 1;
+            let (a, b) = (*a, *b);
+            let tags = format!("fn=number ty=f64 a={} b={} len={}", fclass(a), fclass(b), xs.len());
+            let desc = format!("group=number ty=f64 a={:?} b={:?} xs={:?} ; {}", a, b, xs, NUM_LAYOUT);
+            em.case("custom:exact", &tags, &desc,
+                || pack(format!("(num_f {} {} {})", coq_f64(a), coq_f64(b), coq_f(xs))),
+                || run(|| imp::number(0.0f64, 1.0f64, a, b, xs)));
+        }
+    }
+    // random dyadic values and series (sums and products exact or correctly rounded identically in Rust and Coq)
+    for i in 0..(if thorough { 1500 } else { 300 }) {
+        let a = rng.range(-1600, 1600) as f64 / 8.0;
+        let b = if rng.chance(1, 8) { f64::NAN } else { rng.range(-1600, 1600) as f64 / 8.0 };
+        let len = rng.range(0, 12) as usize;
+        let xs: Vec<f64> = (0..len).map(|_| match i % 3 {
+            0 => rng.range(-40, 40) as f64 / 4.0,
+            1 => if rng.chance(1, 5) { f64::NAN } else { (rng.range(-2000, 2000) as f64) * 1e-3 },   // decimal fractions: every addition rounds
+            _ => (rng.range(1, 9) as f64) * 10f64.powi(rng.range(-18, 18) as i32),                    // wildly different magnitudes
+        }).collect();
+        let tags = format!("fn=number ty=f64 a={} b={} len={}", fclass(a), fclass(b), xs.len().min(12));
+        let desc = format!("group=number ty=f64 a={:?} b={:?} xs={:?} ; {}", a, b, xs, NUM_LAYOUT);
+        em.case("custom:exact", &tags, &desc,
+            || pack(format!("(num_f {} {} {})", coq_f64(a), coq_f64(b), coq_f(&xs))),
+            || run(|| imp::number(0.0f64, 1.0f64, a, b, &xs)));
+    }
+    // ---- f32: comparisons / rounding to an integer / abs only (values whose f32 and f64 arithmetic coincide) ----
+    let sp32: [f32; 12] = [f32::NAN, f32::INFINITY, f32::NEG_INFINITY, 0.0, -0.0, 1.5, -1.5, 2.0, 0.75, -0.25, 8388609.0, -1000000.5];
+    for a in sp32.iter() {
+        for b in sp32.iter() {
+            let (a, b) = (*a, *b);
+            // the arithmetic cells (n_add / n_prod of two values) must be exact in f32: skip pairs whose sum or product is not
+            let exact = ((a as f64 + b as f64) as f32 as f64 == a as f64 + b as f64 || (a + b).is_nan())
+                && ((a as f64 * b as f64) as f32 as f64 == a as f64 * b as f64 || (a * b).is_nan());
+            if !exact { continue; }
+            let tags = format!("fn=number ty=f32 a={} b={} len=0", fclass(a as f64), fclass(b as f64));
+            let desc = format!("group=number ty=f32 a={:?} b={:?} xs=[] ; {}", a, b, NUM_LAYOUT);
+            em.case("custom:exact", &tags, &desc,
+                || pack(format!("(num_f {} {} [])", coq_f64(a as f64), coq_f64(b as f64))),
+                || run(|| imp::number(0.0f32, 1.0f32, a, b, &[])));
+        }
+    }
+    // ---- integers: i32, i64, u64, usize (floor / ceil are the identity, abs of an unsigned is the identity) -------
+    for i in 0..(if thorough { 600 } else { 150 }) {
+        let a = rng.range(-50, 50);
+        let b = rng.range(-50, 50);
+        let len = rng.range(0, 7) as usize;
+        let xs: Vec<i64> = (0..len).map(|_| rng.range(-6, 6)).collect();
+        let cz = coq_zs(&xs);
+        let tags = |ty: &str| format!("fn=number ty={} a=int b=int len={}", ty, len);
+        let desc = |ty: &str, a: i64, b: i64, xs: &dyn std::fmt::Debug| format!("group=number ty={} a={} b={} xs={:?} ; {}", ty, a, b, xs, NUM_LAYOUT);
+        match i % 4 {
+            0 => {
+                let x32: Vec<i32> = xs.iter().map(|v| *v as i32).collect();
+                em.case("custom:exact", &tags("i32"), &desc("i32", a, b, &x32),
+                    || pack(format!("(num_z {} {} {})", coq_z(a as i128), coq_z(b as i128), cz)),
+                    || run(|| imp::number(0i32, 1i32, a as i32, b as i32, &x32)));
+            }
+            1 => {
+                em.case("custom:exact", &tags("i64"), &desc("i64", a, b, &xs),
+                    || pack(format!("(num_z {} {} {})", coq_z(a as i128), coq_z(b as i128), cz)),
+                    || run(|| imp::number(0i64, 1i64, a, b, &xs)));
+            }
+            _ => {
+                // unsigned: non-negative values only
+                let (ua, ub) = (a.unsigned_abs(), b.unsigned_abs());
+                let ux: Vec<u64> = xs.iter().map(|v| v.unsigned_abs()).collect();
+                let cu = coq_zs(&ux.iter().map(|v| *v as i64).collect::<Vec<i64>>());
+                if i % 4 == 2 {
+                    em.case("custom:exact", &tags("u64"), &desc("u64", ua as i64, ub as i64, &ux),
+                        || pack(format!("(num_z {} {} {})", ua, ub, cu)),
+                        || run(|| imp::number(0u64, 1u64, ua, ub, &ux)));
+                } else {
+                    let uz: Vec<usize> = ux.iter().map(|v| *v as usize).collect();
+                    em.case("custom:exact", &tags("usize"), &desc("usize", ua as i64, ub as i64, &uz),
+                        || pack(format!("(num_z {} {} {})", ua, ub, cu)),
+                        || run(|| imp::number(0usize, 1usize, ua as usize, ub as usize, &uz)));
+                }
+            }
+        }
+    }
+    // Number::min_ / max_: the range constants (finite f64::MIN / MAX for floats — NOT the infinities)
+    {
+        let lit = |lo: String, hi: String| format!("({} ++ {})", lo, hi);
+        em.case("custom:exact", "fn=number_range ty=i32", "fn=Number::min_, max_ ty=i32",
+            || lit("c_int (-2147483648)".into(), "c_int 2147483647".into()), || run(|| imp::number_range::<i32>()));
+        em.case("custom:exact", "fn=number_range ty=i64", "fn=Number::min_, max_ ty=i64",
+            || lit("c_int (-9223372036854775808)".into(), "c_int 9223372036854775807".into()), || run(|| imp::number_range::<i64>()));
+        em.case("custom:exact", "fn=number_range ty=u64", "fn=Number::min_, max_ ty=u64",
+            || lit("c_int 0".into(), "c_int 18446744073709551615".into()), || run(|| imp::number_range::<u64>()));
+        em.case("custom:exact", "fn=number_range ty=usize", "fn=Number::min_, max_ ty=usize",
+            || lit("c_int 0".into(), "c_int 18446744073709551615".into()), || run(|| imp::number_range::<usize>()));
+        em.case("custom:exact", "fn=number_range ty=f64", "fn=Number::min_, max_ ty=f64",
+            || lit(format!("c_float {}", coq_f64(f64::MIN)), format!("c_float {}", coq_f64(f64::MAX))), || run(|| imp::number_range::<f64>()));
+        em.case("custom:exact", "fn=number_range ty=f32", "fn=Number::min_, max_ ty=f32",
+            || lit(format!("c_float {}", coq_f64(f32::MIN as f64)), format!("c_float {}", coq_f64(f32::MAX as f64))), || run(|| imp::number_range::<f32>()));
+    }
+    // ---- which of two equal extremes is returned: +0 / -0 in every order (C11_perm_extrema_bitwise_refuted) ----------
+    for len in 1..=3usize {
+        for xs in enumerate(&[0.0f64, -0.0, f64::NAN, 1.0, -1.0], len) {
+            em.case("custom:exact", &format!("fn=zero_sign ty=f64 len={}", len),
+                &format!("group=zero_sign xs={:?} (bits {:?}) ; cells: sign bit of vmin, of vmax", xs, xs.iter().map(|x| format!("{:016x}", x.to_bits())).collect::<Vec<_>>()),
+                || format!("(zero_sign_f {})", coq_f(&xs)), || run(|| imp::zero_signs(&xs)));
+        }
+    }
+    // ---- Number::to / fromas ---------------------------------------------------------------------------------
+    const CAST_LAYOUT: &str = "cells: x.to::<i32>() x.to::<i64>() x.to::<usize>() x.to::<f64>() x.to::<f32>() i32::fromas(x) i64::fromas(x) \
+k.to::<f64>() k.to::<i32>() k.to::<usize>() f64::fromas(k) f32::fromas(k) k32.to::<i64>() k32.to::<f64>() f64::fromas(k32)";
+    let xs_cast: [f64; 16] = [f64::NAN, f64::INFINITY, f64::NEG_INFINITY, 0.0, -0.0, 1.5, -1.5, 2.5, 2147483647.5, -2147483648.5,
+        4294967296.0, 9.3e18, -9.3e18, 1e20, 16777217.0, 0.1];
+    let ks_cast: [i64; 10] = [0, -1, 7, 2147483647, 2147483648, -2147483649, 4294967298, 9007199254740993, i64::MAX, i64::MIN];
+    for (i, x) in xs_cast.iter().enumerate() {
+        for (j, k) in ks_cast.iter().enumerate() {
+            if !(thorough || (i + j) % 2 == 0) { continue; }
+            let (x, k) = (*x, *k);
+            em.case("custom:exact", &format!("fn=casts x={} k={}", fclass(x), if k < 0 { "neg" } else if k > i32::MAX as i64 { "wide" } else { "small" }),
+                &format!("group=casts x={:?} k={} ; {}", x, k, CAST_LAYOUT),
+                || format!("(num_casts {} {})", coq_f64(x), coq_z(k as i128)), || run(|| imp::casts(x, k)));
+        }
+    }
+    // ---- IterBasic::vfold2 / vapply -------------------------------------------------------------------------
+    const F2_LAYOUT: &str = "cells: vfold2 with acc -> (count + 1, 3 acc + a - 2 b): count value";
+    const VA_LAYOUT: &str = "cells: vapply with state (calls, sum, last): calls sum last";
+    let alpha: [Option<i64>; 4] = [Some(-1), Some(0), Some(2), None];
+    let mk = |k: &Vec<Option<i64>>| -> (Vec<f64>, Vec<Option<f64>>) {
+        (k.iter().map(|v| v.map(|z| z as f64).unwrap_or(f64::NAN)).collect(), k.iter().map(|v| v.map(|z| z as f64)).collect())
+    };
+    let mut pairs: Vec<(Vec<Option<i64>>, Vec<Option<i64>>)> = vec![];
+    for la in 0..=3usize {
+        for lb in 0..=3usize {
+            if la + lb > 5 { continue; }
+            for ka in enumerate(&alpha, la) {
+                for kb in enumerate(&alpha, lb) {
+                    if la == 3 && lb >= 2 && !rng.chance(1, 4) { continue; }
+                    pairs.push((ka.clone(), kb));
+                }
+            }
+        }
+    }
+    for _ in 0..(if thorough { 400 } else { 80 }) {
+        let la = rng.range(0, 14) as usize;
+        let lb = (la as i64 + rng.range(-2, 2)).max(0) as usize;
+        let g = |rng: &mut Rng, n: usize| -> Vec<Option<i64>> { (0..n).map(|_| if rng.chance(1, 4) { None } else { Some(rng.range(-9, 9)) }).collect() };
+        let a = g(rng, la);
+        let b = g(rng, lb);
+        pairs.push((a, b));
+    }
+    for (ka, kb) in pairs.iter() {
+        let (fa, oa) = mk(ka);
+        let (fb, ob) = mk(kb);
+        let npair = ka.iter().zip(kb.iter()).filter(|(x, y)| x.is_some() && y.is_some()).count();
+        let nt = if ka.is_empty() || kb.is_empty() { " nt=0" } else { "" };
+        let tg = |ty: &str| format!("fn=vfold2 ty={} len={} npair={} lens={}{}", ty, ka.len().min(12), npair.min(5),
+            if ka.len() == kb.len() { "eq" } else if ka.len() < kb.len() { "first_shorter" } else { "second_shorter" }, nt);
+        let ds = |ty: &str| format!("group=vfold2 ty={} xs={:?} ys={:?} ; {}", ty, fa, fb, F2_LAYOUT);
+        em.case("custom:exact", &tg("f64,f64"), &ds("f64,f64"),
+            || format!("(fold2_ff {} {})", coq_f(&fa), coq_f(&fb)), || run(|| imp::fold2(|| fa.titer(), || fb.titer())));
+        em.case("custom:exact", &tg("optf64,optf64"), &ds("optf64,optf64"),
+            || format!("(fold2_oo {} {})", coq_of(&oa), coq_of(&ob)), || run(|| imp::fold2(|| oa.clone(), || ob.clone())));
+        em.case("custom:exact", &tg("f64,optf64"), &ds("f64,optf64"),
+            || format!("(fold2_fo {} {})", coq_f(&fa), coq_of(&ob)), || run(|| imp::fold2(|| fa.clone(), || ob.titer())));
+        let nta = if ka.is_empty() { " nt=0" } else { "" };
+        let nv = ka.iter().filter(|x| x.is_some()).count();
+        em.case("custom:exact", &format!("fn=vapply ty=f64 len={} nv={}{}", ka.len().min(12), nv.min(5), nta),
+            &format!("group=vapply ty=f64 xs={:?} ; {}", fa, VA_LAYOUT),
+            || format!("(vapply_f {})", coq_f(&fa)), || run(|| imp::vapply(|| fa.titer())));
+        em.case("custom:exact", &format!("fn=vapply ty=optf64 len={} nv={}{}", ka.len().min(12), nv.min(5), nta),
+            &format!("group=vapply ty=optf64 xs={:?} ; {}", oa, VA_LAYOUT),
+            || format!("(vapply_o {})", coq_of(&oa)), || run(|| imp::vapply(|| oa.clone())));
+    }
+}
+
+/// coarse class of a float for the input histogram
+fn fclass(x: f64) -> &'static str {
+    if x.is_nan() { "nan" } else if x.is_infinite() { "inf" } else if x == 0.0 { "zero" }
+    else if x.fract() == 0.0 { "integral" } else { "fractional" }
+}
+
 fn enumerate<X: Clone>(alphabet: &[X], len: usize) -> Vec<Vec<X>> {
     let mut out = vec![];
     let total = alphabet.len().pow(len as u32);
@@ -954,5 +1245,7 @@ fn main() {
         let xs: Vec<Option<bool>> = (0..len).map(|_| if rng.chance(q, 10) { None } else { Some(rng.chance(p, 10)) }).collect();
         bools(&mut em, &xs);
     }
+    // ---- audit additions: Number helpers, casts, vfold2 / vapply ---------------------------------------------
+    audit_cases(&mut em, &mut rng, thorough);
     em.finish();
 }
